@@ -5,13 +5,17 @@
 (* step by step against the specification.                                 *)
 (*                                                                         *)
 (*  - the candle-manager stage of every call must be EXACTLY the spec's    *)
-(*    MgrNew / MgrAppend applied to the observed pre-state;                *)
+(*    MgrNew / MgrAppend / MgrPurge applied to the observed pre-state;     *)
 (*  - every reading that the call computed must be the spec's layer        *)
 (*    function F applied to the OBSERVED stored inputs (Indicators.tla),   *)
 (*    within the rounding the indicator is configured with;                *)
 (*  - every reading that existed before must be bit-identical afterwards;  *)
+(*  - maintenance calls (purge / recalculate / calculate_index / add /     *)
+(*    remove) must have exactly the effect the spec gives them;            *)
+(*  - read-only calls must leave everything unchanged and return what the  *)
+(*    spec's Reading function returns on the observed state;               *)
 (*  - the per-state predicates of the properties (finite, rounded,         *)
-(*    gap-free, structural relations, batch twin equality, ...) are        *)
+(*    gap-free, structural relations, twin equalities, work bounds) are    *)
 (*    evaluated on every observed state.                                   *)
 (*                                                                         *)
 (* The trace spec is TOTAL and CONTINUING: a failed clause is recorded in  *)
@@ -27,8 +31,11 @@ VARIABLES tid, l, st, fails, unch, nchk,
           kc,      \* number of raw candles consumed so far
           ok15,    \* C15's look-back precondition has held at every append so far
           trimmed, \* some candle has been trimmed away so far
-          notes    \* coverage notes (which conditional clauses actually applied)
-tvars == <<tid, l, st, fails, unch, nchk, kc, ok15, trimmed, notes>>
+          notes,   \* coverage notes (which conditional clauses actually applied)
+          reg,     \* indices (into the trace's indicator list) of the registered indicators
+          mgs,     \* indices of the candle managers that exist
+          ob       \* last observed scalars of the object under test (attribute names, active index)
+tvars == <<tid, l, st, fails, unch, nchk, kc, ok15, trimmed, notes, reg, mgs, ob>>
 
 \* --------------------------------------------------------------------------
 \* JSON -> spec values
@@ -38,7 +45,7 @@ CJ(j) ==
    cl |-> IF Len(j.cl) = 0 THEN <<>>
           ELSE <<[o |-> j.cl[1], h |-> j.cl[2], l |-> j.cl[3], c |-> j.cl[4], v |-> j.cl[5],
                   ts |-> j.cl[6][1]]>>,
-   ind |-> [k |-> j.ik, v |-> j.iv], sub |-> [k |-> j.sk, v |-> j.sv]]
+   ind |-> [k |-> j.ik, v |-> j.iv], sub |-> [k |-> j.sk, v |-> j.sv], x |-> j.x]
 CJSeq(js) == [i \in 1..Len(js) |-> CJ(js[i])]
 
 ApplyDelta(pre, dl) ==
@@ -50,25 +57,57 @@ ApplyDelta(pre, dl) ==
 
 MCfg(m) == MkCfg(m.tf, m.fill, m.life, m.ha)
 RawCopies(cs) == [i \in 1..Len(cs) |-> [Reset(Recover(cs[i])) EXCEPT !.cl = <<>>]]
-
-\* --------------------------------------------------------------------------
-\* per-call expectations
-\* --------------------------------------------------------------------------
 RawSlice(T, a, b) == CJSeq(SubSeq(T.raw, a, b))
 
+RECURSIVE SetAsSeq(_)
+SetAsSeq(S) == IF S = {} THEN <<>> ELSE LET x == CHOOSE y \in S : TRUE IN <<x>> \o SetAsSeq(S \ {x})
+
+MaxFails == 6
+NoteNames == {"untrimmed_skipped", "untrimmed_compared", "def", "reads", "work", "purge_exact",
+              "reindex", "recalc_same", "noninterference", "args"}
+\* TRACE_DEBUG=1 lists unchecked comparisons among the failures (diagnosis only)
+DebugUnch == "TRACE_DEBUG" \in DOMAIN IOEnv
+
+\* --------------------------------------------------------------------------
+\* registry: which indicators and managers exist after the call
+\* --------------------------------------------------------------------------
+ByName(T, nm) == {n \in 1..Len(T.ind) : T.ind[n].name = nm}
+Initial(T) == {n \in 1..Len(T.ind) : T.ind[n].act = 1}
+RegAfter(T, e) ==
+  CASE e.op = "new" -> Initial(T)
+    [] e.op = "add" -> reg \cup ByName(T, e.nm)
+    [] e.op = "remove" -> reg \ ByName(T, e.nm)
+    [] OTHER -> reg
+MgsAfter(T, e) ==
+  CASE e.op = "new" -> {1} \cup {T.ind[n].mg : n \in Initial(T)}
+    [] e.op = "add" -> mgs \cup {T.ind[n].mg : n \in ByName(T, e.nm)}
+    [] OTHER -> mgs
+
+\* which registered indicators the call is aimed at ("" = all of them)
+Targets(T, e) == {n \in reg : e.nm = "" \/ T.ind[n].name = e.nm}
+NamesOn(T, ns, j) == UNION {OwnedNames(T.ind[n]) : n \in {n \in ns : T.ind[n].mg = j}}
+
+\* --------------------------------------------------------------------------
 \* manager stage: what each manager's candle list must be after the call, readings carried
-\* over from the observed pre-state (wiped on merged / converted candles)
+\* over from the observed pre-state (wiped on merged / converted candles, removed by purge)
+\* --------------------------------------------------------------------------
+OkCs(cs) == [ok |-> TRUE, err |-> "", cs |-> cs]
 MidOf(T, e, j) ==
   LET cfg == MCfg(T.mg[j])
-  IN CASE e.op = "new" ->
+  IN IF j \notin MgsAfter(T, e) THEN OkCs(<<>>)
+     ELSE CASE e.op = "new" ->
             IF T.mg[j].src = 0 THEN MgrNew(RawSlice(T, 1, e.b), cfg)
             ELSE \* a Hexital timeframe manager starts from copies of the default manager's
                  \* candles (after its own tasks) with raw values recovered, no tag, no readings
                  LET d == MgrNew(RawSlice(T, 1, e.b), MCfg(T.mg[T.mg[j].src]))
                  IN IF ~d.ok THEN d ELSE MgrNew(RawCopies(d.cs), cfg)
+       [] e.op = "add" ->
+            IF j \in mgs THEN OkCs(st[j]) ELSE MgrNew(RawCopies(st[T.mg[j].src]), cfg)
        [] e.op = "append" -> MgrAppend(st[j], RawSlice(T, e.a, e.b), cfg)
        [] e.op = "collapse" -> MgrTasks(st[j], cfg)     \* another pass over the same list
-       [] OTHER -> [ok |-> TRUE, err |-> "", cs |-> st[j]]
+       [] e.op \in {"purge", "recalculate", "remove"} ->
+            OkCs(MgrPurge(st[j], NamesOn(T, Targets(T, e), j)))
+       [] OTHER -> OkCs(st[j])
 
 \* first position at which two shell sequences differ (0 = none)
 FirstDiff(a, b) ==
@@ -80,11 +119,17 @@ StoredAt(c, s) ==
   IF s.top THEN (IF KVHas(c.ind, s.name) THEN KVGet(c.ind, s.name) ELSE NoneV)
   ELSE (IF KVHas(c.sub, s.name) THEN KVGet(c.sub, s.name) ELSE NoneV)
 
-\* which indicators the call (re)computes
-Targets(T, e) ==
-  {n \in 1..Len(T.ind) : e.nm = "" \/ T.ind[n].name = e.nm}
+KVSame(a, b) ==
+  /\ {a.k[q] : q \in 1..Len(a.k)} = {b.k[q] : q \in 1..Len(b.k)}
+  /\ \A q \in 1..Len(a.k) : SameV(a.v[q], KVGet(b, a.k[q]))
+NameSame(a, b, nm) ==
+  /\ KVHas(a, nm) = KVHas(b, nm)
+  /\ (KVHas(a, nm) => SameV(KVGet(a, nm), KVGet(b, nm)))
 
-\* one series at one position: <<verdict, clause>>
+KVSeqSame(a, b) ==
+  Len(a) = Len(b) /\ \A i \in 1..Len(a) : KVSame(a[i].ind, b[i].ind) /\ KVSame(a[i].sub, b[i].sub)
+
+\* one series at one position
 SeriesCheck(s, mid, post, i) ==
   LET o == StoredAt(post[i], s)
       m == StoredAt(mid[i], s)
@@ -97,34 +142,76 @@ SeriesCheck(s, mid, post, i) ==
              ELSE IF s.rv >= 0 /\ ~RoundedV(o, s.rv) THEN "round"
              ELSE "ok"
 
-\* all findings of a calculate-type step on manager j
-CalcFindings(T, e, j, mid, post) ==
+\* all findings of a calculate-type step on manager j for the indicators ns
+CalcFindings(T, ns, j, mid, post) ==
   { <<r[1], j, r[2], r[3]>> :
       r \in UNION { LET ss == SeriesOf(T.ind[n])
                     IN { <<SeriesCheck(ss[q], mid, post, i), ss[q].name, i>> :
                             q \in 1..Len(ss), i \in 1..Len(post) }
-                  : n \in {n \in Targets(T, e) : T.ind[n].mg = j} } }
+                  : n \in {n \in ns : T.ind[n].mg = j /\ T.ind[n].kind # "Amorph"} } }
+
+\* calculate_index: the series of the targets at one position are recomputed; they must
+\* match their layer function and reproduce what was there; nothing else may change
+ReindexFindings(T, ns, j, pre, post, pos) ==
+  IF {n \in ns : T.ind[n].mg = j} = {}
+  THEN (IF KVSeqSame(pre, post) THEN {} ELSE {<<"reindex_elsewhere", j, "", 0>>})
+  ELSE IF pos < 1 \/ pos > Len(post) \/ Len(pre) # Len(post) THEN {<<"reindex_range", j, "", pos>>}
+  ELSE { <<r[1], j, r[2], pos>> :
+           r \in UNION { LET ss == SeriesOf(T.ind[n])
+                         IN { LET s == ss[q]
+                                  o == StoredAt(post[pos], s)
+                                  m == MatchAny(o, F(s, post, pos), s.rv, s.sl)
+                              IN <<IF m = "bad" THEN "value"
+                                   ELSE IF ~SameV(o, StoredAt(pre[pos], s)) THEN "reindex_differs"
+                                   ELSE IF m = "unchecked" THEN "unchecked" ELSE "ok", s.name>>
+                              : q \in 1..Len(ss) }
+                       : n \in {n \in ns : T.ind[n].mg = j /\ T.ind[n].kind # "Amorph"} } }
+       \cup { <<"reindex_elsewhere", j, "", i>> :
+                i \in {i \in 1..Len(post) : i # pos /\ (~KVSame(pre[i].ind, post[i].ind)
+                                                        \/ ~KVSame(pre[i].sub, post[i].sub))} }
+       \cup {<<"ok", j, "reindex", 0>>}
+
+\* the exact state a purge-type call must leave (C14), and the columns of the indicators it
+\* was not aimed at (C13)
+PurgeFindings(T, e, j, mid, post) ==
+  { <<"purge_state", j, "", i>> :
+       i \in {i \in 1..Len(post) : ~KVSame(mid[i].ind, post[i].ind) \/ ~KVSame(mid[i].sub, post[i].sub)} }
+  \cup {<<"ok", j, "purge_exact", 0>>}
+
+OthersFindings(T, e, j, pre, post) ==
+  IF Len(pre) # Len(post) THEN {}
+  ELSE { <<"interfere", j, T.ind[n].name, i>> :
+           n \in {n \in RegAfter(T, e) \ Targets(T, e) : T.ind[n].mg = j},
+           i \in {i \in 1..Len(post) : \E n2 \in RegAfter(T, e) \ Targets(T, e) :
+                     T.ind[n2].mg = j /\ ~NameSame(pre[i].ind, post[i].ind, T.ind[n2].name)} }
+       \cup {<<"ok", j, "noninterference", 0>>}
+
+\* recalculate reproduces exactly the readings it replaced
+RecalcSame(T, e, j, pre, post) ==
+  IF Len(pre) # Len(post) THEN {}
+  ELSE { <<"recalc_differs", j, T.ind[n].name, i>> :
+           n \in {n \in Targets(T, e) : T.ind[n].mg = j},
+           i \in {i \in 1..Len(post) : \E n2 \in Targets(T, e) :
+                     T.ind[n2].mg = j /\ KVHas(pre[i].ind, T.ind[n2].name)
+                     /\ ~NameSame(pre[i].ind, post[i].ind, T.ind[n2].name)} }
+       \cup {<<"ok", j, "recalc_same", 0>>}
 
 \* state predicates evaluated on every observed state (C09 gaps, C10 structure)
-StateFindings(T, j, post) ==
+StateFindings(T, ns, j, post) ==
   { <<r[1], j, r[2], r[3]>> :
       r \in UNION { LET c == T.ind[n]
                     IN { <<TopCheck(c, post, i), c.name, i>> : i \in 1..Len(post) }
-                  : n \in {n \in 1..Len(T.ind) : T.ind[n].mg = j} } }
+                  : n \in {n \in ns : T.ind[n].mg = j} } }
 
+\* --------------------------------------------------------------------------
 \* twins: a second observation of the same configuration obtained by calling the library
-\* differently (batch, longer batch, untrimmed, standalone).  A twin record is
+\* differently (batch, longer batch, untrimmed, standalone, alone, other order).  A twin is
 \*   [j, mode, skip, names, clause, cs]
 \* mode "full"   : same length, every candle compared
 \*      "prefix" : the first Len(post) - skip candles compared with the same positions
 \*      "tail"   : post compared with the last Len(post) candles of the twin
 \* names = <<>>  : both reading dictionaries compared; otherwise only the listed top-level names
-KVSame(a, b) ==
-  /\ {a.k[q] : q \in 1..Len(a.k)} = {b.k[q] : q \in 1..Len(b.k)}
-  /\ \A q \in 1..Len(a.k) : SameV(a.v[q], KVGet(b, a.k[q]))
-NameSame(a, b, nm) ==
-  /\ KVHas(a, nm) = KVHas(b, nm)
-  /\ (KVHas(a, nm) => SameV(KVGet(a, nm), KVGet(b, nm)))
+\* --------------------------------------------------------------------------
 TwinFindings(tw, post) ==
   LET a   == post[tw.j]
       b   == CJSeq(tw.cs)
@@ -142,12 +229,15 @@ TwinFindings(tw, post) ==
                           i \in {i \in 1..n : \E q2 \in 1..Len(tw.names) :
                                     ~NameSame(a[i].ind, b[off + i].ind, tw.names[q2])} })
 
+\* --------------------------------------------------------------------------
 \* definitional clause (C03 / C11 / C12 / C15 window): what the manager shows is the
 \* right-closed resampling (+ fill, + Heikin-Ashi, + window) of the raw stream consumed so far
+\* --------------------------------------------------------------------------
 DefApplies(T, j) ==
   LET m == T.mg[j]
   IN /\ ~(m.fill /\ m.ha) /\ ~(m.ha /\ m.life >= 0)
      /\ (m.src = 0 \/ (T.mg[m.src].tf = 0 /\ ~T.mg[m.src].ha /\ T.mg[m.src].life < 0))
+     /\ m.late = 0     \* a manager created later starts from what the default one still holds
 DefFindings(T, j, k, postj) ==
   IF ~DefApplies(T, j) \/ k = 0 THEN {}
   ELSE LET cfg == MCfg(T.mg[j])
@@ -159,7 +249,7 @@ DefFindings(T, j, k, postj) ==
           \cup (IF cfg.ha /\ \E i \in 1..Len(postj) : postj[i].tag # HAName
                 THEN {<<"def_tag", j, "", Len(postj)>>} ELSE {})
 
-\* C15 look-back precondition at one append: once something has been trimmed, every candle
+\* C15 look-back precondition at one call: once something has been trimmed, every candle
 \* whose readings are (re)computed must still have Warm(c) predecessors
 LookbackOK(T, e, post) ==
   \A j \in 1..Len(T.mg) :
@@ -167,19 +257,117 @@ LookbackOK(T, e, post) ==
         \A n \in {n \in 1..Len(T.ind) : T.ind[n].mg = j} :
            \A q \in 1..Len(e.m[j].d) : e.m[j].d[q].i - 1 >= Warm(T.ind[n])
 
+\* --------------------------------------------------------------------------
+\* read-only calls (C19, C20): the spec's Reading function on the observed state
+\* --------------------------------------------------------------------------
+ListV(vs) == [t |-> "l", v |-> vs]
+IntV(n) == [t |-> "q", n |-> n, d |-> 1]
+PyIdx(n, i) == IF i < 0 THEN n + i + 1 ELSE i + 1          \* Python index -> 1-based position
+ValidIdx(n, i) == i < n /\ i >= -n
+
+RECURSIVE TrailCount(_, _, _)
+TrailCount(cs, r, i) == IF i < 1 \/ GetRef(cs[i], r).t = "n" THEN 0 ELSE 1 + TrailCount(cs, r, i - 1)
+
+\* Hexital.reading: default manager first, then every manager in order, first non-None wins
+RECURSIVE HexReading(_, _, _, _)
+HexReading(ms, js, r, i) ==
+  IF js = <<>> THEN NoneV
+  ELSE LET cs == ms[Head(js)]
+           v  == IF ValidIdx(Len(cs), i) THEN GetRef(cs[PyIdx(Len(cs), i)], r) ELSE NoneV
+       IN IF v.t # "n" THEN v ELSE HexReading(ms, Tail(js), r, i)
+
+Expected(T, ms, q) ==
+  LET cs == IF q.j >= 1 THEN ms[q.j] ELSE <<>>
+      n  == Len(cs)
+      ai == q.ai
+      js == SetAsSeq({1}) \o [k \in 1..Cardinality(mgs) |-> CHOOSE x \in mgs :
+                                  Cardinality({y \in mgs : y < x}) = k - 1]
+  IN CASE q.w = "ind.reading" ->
+            IF q.i = 999999 THEN GetRef(cs[ai + 1], q.n) ELSE GetRef(cs[PyIdx(n, q.i)], q.n)
+       [] q.w = "ind.read_candle" -> GetRef(cs[PyIdx(n, q.i)], q.n)
+       [] q.w = "ind.prev_reading" -> IF n = 0 \/ ai = 0 THEN NoneV ELSE GetRef(cs[ai], q.n)
+       [] q.w = "ind.as_list" -> ListV([i \in 1..n |-> GetRef(cs[i], q.n)])
+       [] q.w = "ind.has_reading" ->
+            IF n = 0 THEN BoolV(FALSE) ELSE BoolV(GetRef(cs[ai + 1], q.n).t # "n")
+       [] q.w = "ind.reading_count" -> IntV(TrailCount(cs, q.n, n))
+       [] q.w = "hex.reading" -> HexReading(ms, js, q.n, q.i)
+       [] q.w = "hex.prev_reading" -> HexReading(ms, js, q.n, -2)
+       [] q.w = "hex.has_reading" -> BoolV(HexReading(ms, js, q.n, -1).t # "n")
+       [] q.w = "hex.reading_as_list" ->
+            IF q.j = 0 THEN ListV(<<>>) ELSE ListV([i \in 1..n |-> GetRef(cs[i], q.n)])
+       [] OTHER -> [t |-> "skip"]
+
+RECURSIVE SameR(_, _)
+SameR(a, b) ==
+  IF b.t = "skip" THEN TRUE
+  ELSE IF a.t # b.t THEN FALSE
+  ELSE IF a.t = "l" THEN Len(a.v) = Len(b.v) /\ \A i \in 1..Len(a.v) : SameR(a.v[i], b.v[i])
+  ELSE IF a.t = "q" /\ ~IsObs(b) THEN a.n = b.n /\ a.d = b.d
+  ELSE SameV(a, b)
+
+ReadFindings(T, e, post) ==
+  { <<IF SameR(e.rd[q].r, Expected(T, post, e.rd[q])) THEN "ok" ELSE "read_" \o e.rd[q].w,
+      MaxI(e.rd[q].j, 1), e.rd[q].n.n, e.rd[q].i>> : q \in 1..Len(e.rd) }
+  \cup (IF Len(e.rd) > 0 THEN {<<"ok", 1, "reads", 0>>} ELSE {})
+
+\* --------------------------------------------------------------------------
+\* work of one single-candle append (C07): which (series, index) were computed and how far
+\* back candles were read.  wk = <<[calls, minread, n]>> or <<>>
+\* --------------------------------------------------------------------------
+WorkRepeat == 3     \* a managed helper is driven at most a few times per index by its parent
+RECURSIVE MaxOf(_)
+MaxOf(S) == IF S = {} THEN 0 ELSE LET x == CHOOSE y \in S : TRUE IN MaxI(x, MaxOf(S \ {x}))
+WarmMax(T, j) == MaxOf({Warm(T.ind[n]) : n \in {n \in reg : T.ind[n].mg = j}})
+WorkFindings(T, e, mid, post) ==
+  IF Len(e.wk) = 0 THEN {}
+  ELSE LET w == e.wk[1]
+           j == w.j
+           new == {i \in 1..Len(post[j]) :
+                     i > Len(mid[j]) \/ \E n \in reg : T.ind[n].mg = j /\ ~KVHas(mid[j][i].ind, T.ind[n].name)}
+           lim == Len(post[j]) - Cardinality(new) - WarmMax(T, j)
+       IN { <<"work_old_index", j, w.calls[q][1], w.calls[q][2] + 1>> :
+               q \in {q \in 1..Len(w.calls) : (w.calls[q][2] + 1) \notin new} }
+          \cup { <<"work_repeat", j, w.calls[q][1], w.calls[q][2] + 1>> :
+               q \in {q \in 1..Len(w.calls) :
+                        Cardinality({p \in 1..Len(w.calls) : w.calls[p] = w.calls[q]}) > WorkRepeat} }
+          \cup (IF w.minread >= 0 /\ w.minread + 1 < lim
+                THEN {<<"work_lookback", j, "", w.minread + 1>>} ELSE {})
+          \cup {<<"ok", j, "work", 0>>}
+
+\* --------------------------------------------------------------------------
+\* all findings of one step
+\* --------------------------------------------------------------------------
+CalcOps == {"append", "calculate", "recalculate"}
+ReadOps == {"reads"}
+
 StepFindings(T, e, post) ==
-  UNION { LET mid == MidOf(T, e, j)
+  LET ra == RegAfter(T, e)
+      mids == [j \in 1..Len(T.mg) |-> MidOf(T, e, j)]
+  IN UNION { LET mid == mids[j]
               sd  == IF mid.ok THEN FirstDiff(ShellSeq(mid.cs), ShellSeq(post[j])) ELSE -2
               \* with a lifespan, readings are only specified while the look-back they need
               \* has survived every trim (C15's precondition)
               rd  == T.mg[j].life < 0 \/ (ok15 /\ LookbackOK(T, e, post))
+              tg  == IF e.op = "append" THEN ra ELSE Targets(T, e)
           IN IF e.exc # "" THEN {<<"exc", j, e.exc, 0>>}
+             \* a candle whose values could not be recovered exactly (long Heikin-Ashi chains
+             \* outgrow 32 bits) cannot be judged: counted as unchecked, never as a verdict
+             ELSE IF \E i \in 1..Len(post[j]) : post[j][i].x = 0 THEN {<<"unchecked", j, "inexact_candle", 0>>}
              ELSE IF ~mid.ok THEN {<<"stage_err", j, mid.err, 0>>}
              ELSE IF sd # 0 THEN {<<"stage", j, "", sd>>}
              ELSE (IF ~rd THEN {}
-                   ELSE (IF e.op \in {"append", "calculate"}
-                         THEN CalcFindings(T, e, j, mid.cs, post[j]) ELSE {})
-                        \cup StateFindings(T, j, post[j]))
+                   ELSE (IF e.op \in CalcOps THEN CalcFindings(T, tg, j, mid.cs, post[j]) ELSE {})
+                        \cup (IF e.op = "calculate_index"
+                              THEN ReindexFindings(T, tg, j, st[j], post[j], PyIdx(Len(st[j]), e.idx)) ELSE {})
+                        \cup (IF e.op \in {"purge", "remove"} THEN PurgeFindings(T, e, j, mid.cs, post[j]) ELSE {})
+                        \cup (IF e.op = "recalculate" THEN RecalcSame(T, e, j, st[j], post[j]) ELSE {})
+                        \cup (IF e.op \in {"purge", "remove", "recalculate", "calculate_index", "calculate"}
+                                 /\ e.nm # ""
+                              THEN OthersFindings(T, e, j, st[j], post[j]) ELSE {})
+                        \cup (IF e.op \in {"reads", "add", "new", "collapse"}
+                                 /\ (~KVSeqSame(mid.cs, post[j]))
+                              THEN {<<"sideeffect", j, e.op, 0>>} ELSE {})
+                        \cup StateFindings(T, ra, j, post[j]))
                   \cup DefFindings(T, j, IF e.op \in {"new", "append"} THEN e.b ELSE kc, post[j])
         : j \in 1..Len(T.mg) }
   \cup UNION { IF e.bt[q].clause = "untrimmed" /\ ~(ok15 /\ LookbackOK(T, e, post))
@@ -187,7 +375,19 @@ StepFindings(T, e, post) ==
               ELSE TwinFindings(e.bt[q], post)
                    \cup (IF e.bt[q].clause = "untrimmed" THEN {<<"ok", e.bt[q].j, "untrimmed_compared", 0>>} ELSE {})
             : q \in 1..Len(e.bt) }
+  \cup (IF e.exc = "" THEN ReadFindings(T, e, post) ELSE {})
+  \cup (IF e.exc = "" /\ \A j \in 1..Len(T.mg) : mids[j].ok
+        THEN WorkFindings(T, e, [j \in 1..Len(T.mg) |-> mids[j].cs], post) ELSE {})
+  \* the object keeps its attributes over every call; a read-only call changes nothing at all
+  \cup (IF e.op # "new" /\ e.exc = ""
+           /\ ~({ob.at[q] : q \in 1..Len(ob.at)} \subseteq {e.ob.at[q] : q \in 1..Len(e.ob.at)})
+        THEN {<<"attrs_lost", 1, e.op, 0>>} ELSE {})
+  \cup (IF e.op \in ReadOps /\ e.ob # ob THEN {<<"sideeffect", 1, "object", 0>>} ELSE {})
+  \* the caller's containers are left as they were
+  \cup (IF e.ab # e.aa THEN {<<"args_mutated", 1, e.op, 0>>}
+        ELSE IF Len(e.ab) > 0 THEN {<<"ok", 1, "args", 0>>} ELSE {})
 
+\* --------------------------------------------------------------------------
 \* the trace behaviour
 \* --------------------------------------------------------------------------
 Init ==
@@ -201,13 +401,9 @@ Init ==
   /\ ok15 = TRUE
   /\ trimmed = FALSE
   /\ notes = <<>>
-
-MaxFails == 6
-NoteNames == {"untrimmed_skipped", "untrimmed_compared", "def"}
-\* TRACE_DEBUG=1 lists unchecked comparisons among the failures (diagnosis only)
-DebugUnch == "TRACE_DEBUG" \in DOMAIN IOEnv
-RECURSIVE SetAsSeq(_)
-SetAsSeq(S) == IF S = {} THEN <<>> ELSE LET x == CHOOSE y \in S : TRUE IN <<x>> \o SetAsSeq(S \ {x})
+  /\ reg = {}
+  /\ mgs = {}
+  /\ ob = [at |-> <<>>, ai |-> 0]
 
 Step ==
   /\ l <= Len(Traces[tid].ev)
@@ -231,6 +427,9 @@ Step ==
                                                                [MCfg(T.mg[j]) EXCEPT !.life = -1])))
                             \/ (e.op = "new" /\ T.mg[j].life >= 0 /\ ~DefApplies(T, j)))
         /\ notes' = notes \o SetAsSeq({f[3] : f \in {g \in fs : g[1] = "ok" /\ g[4] = 0 /\ g[3] \in NoteNames}})
+        /\ reg' = RegAfter(T, e)
+        /\ mgs' = MgsAfter(T, e)
+        /\ ob' = e.ob
         /\ l' = l + 1
         /\ tid' = tid
 
